@@ -25,6 +25,7 @@ RULE = (
     "over {value, caught, subclass of caught (one and two levels; unrenderable; unhashable), uncaught Exception, CancelledError, other "
     "BaseException}; plus ONE wrapper used 2-3 times in a row (every outcome sequence per use over {value, caught, subclass, uncaught}, delay function depending on the exception); long limits 6, 9, 17, 33 (65) with the first limit-2 .. limit calls failing with the caught class and every outcome sequence after that; non-trivial = at least one retry happened or a non-retryable error ended it"
 )
+RULE += ' Rounds 10-13: limits 3-4 in quick; long limits 6-33 (65) with forced failing prefixes; fine / huge delays (9/8192 s .. 2**20 s); overlapping calls with per-call delay functions.'
 ASSUMPTIONS = [
     "virtual time.sleep / asyncio.sleep (exact dyadic delays); the wrapped call itself takes no time",
 ]
